@@ -12,10 +12,12 @@ TReset == More /\ Ev.e = "Reset" /\ Consume /\ n' = 1 /\ entered' = [k \in Round
 TBarrier == More /\ Ev.e = "Barrier" /\ Consume /\ Reinit(Ev.n)
 TCall == More /\ Ev.e = "BarCall" /\ Consume /\ BarCall(Ev.t, Ev.k)
 TRet == More /\ Ev.e = "BarRet" /\ Consume /\ BarRet(Ev.t, Ev.k)
+\* a rejected call (tasklet caller) reports the documented error and is not an arrival
+TReject == More /\ Ev.e = "BarReject" /\ Consume /\ Ev.ret = 1 /\ UNCHANGED hvars
 TEnd == More /\ Ev.e = "End" /\ Consume
         /\ (Ev.why = "done" => \A t \in Threads : inside[t] = -1)
         /\ UNCHANGED hvars
-TNext == TReset \/ TBarrier \/ TCall \/ TRet \/ TEnd
+TNext == TReject \/ TReset \/ TBarrier \/ TCall \/ TRet \/ TEnd
 TSpec == TInit /\ [][TNext]_tvars
 NotAccepted == l <= Len(TraceLog)
 TrackMax == TLCSet(1, IF TLCGet(1) < l THEN l ELSE TLCGet(1))
